@@ -42,9 +42,10 @@ valid.
 open Conv ConvSpec
 
 /-- Flushing a buffer yields exactly one output sample per buffered sample, in order, on the thread entry
-the sample was tagged with, at its recorded time and with weight 1 — whatever the mapping queue is. -/
-theorem C01_flush_no_loss_partial (maps : List MapAdd) (q : List (Nat × MapAdd)) (us : List USample) :
-    (flushBuffer maps q us).map (fun o => (o.1, o.2.t, o.2.weight)) = us.map (fun u => (u.th, u.t, 1)) := by
+the sample was tagged with, at its recorded time and with weight 1 — whatever the mapping queue and the
+perf map are. -/
+theorem C01_flush_no_loss_partial (pm maps : List MapAdd) (q : List (Nat × MapAdd)) (us : List USample) :
+    (flushBuffer pm maps q us).map (fun o => (o.1, o.2.t, o.2.weight)) = us.map (fun u => (u.th, u.t, 1)) := by
   induction us generalizing maps q with
   | nil => rfl
   | cons u rest ih =>
@@ -60,7 +61,7 @@ theorem C01_flushAll_no_loss_partial (s : St) :
   rw [List.map_flatMap]
   congr 1
   funext b
-  exact C01_flush_no_loss_partial [] b.2 b.1
+  exact C01_flush_no_loss_partial (perfMapTable s.cfg b.2.2) [] b.2.1 b.1
 
 /-- Samples of the idle thread (tid 0) change nothing. -/
 theorem C01_idle_ignored (s : St) (pid t : Nat) (km : Bool) (period ip : Nat) (chain : List Nat) :
